@@ -743,6 +743,38 @@ class Interp:
         return vals
 
 
+    def run_local(self, gid, inputs_p, P):
+        """party P's own computation with every value delivered to P replaced by a fresh symbol
+        (what P can compute from its view alone). returns (vals, mu) with mu[nid] = the fresh value."""
+        g = self.ctx["graphs"][gid]
+        types = [self.node_type(n) for n in g["nodes"]]
+        vals, mu = [], {}
+        k = 0
+
+        def no_call(*a):
+            raise Unsupported("Call/Iterate in three-view semantics")
+
+        for nid, node in enumerate(g["nodes"]):
+            op = node["op"]
+            if isinstance(op, dict) and "Input" in op:
+                vals.append(inputs_p[k])
+                k += 1
+                continue
+            send = None
+            for a in node.get("ann", []):
+                if isinstance(a, dict) and "Send" in a:
+                    send = (int(a["Send"][0]), int(a["Send"][1]))
+            if send is not None and send[1] == P:
+                v = self.fresh_value(types[nid], "mu%d_p%d" % (nid, P))
+                mu[nid] = v
+                vals.append(v)
+                continue
+            dt = [types[d] for d in node["deps"]]
+            dv = [vals[d] for d in node["deps"]]
+            vals.append(self.eval_op(node, dv, dt, types[nid], (gid, nid), P, no_call))
+        return vals, mu
+
+
 def input_types(ctx, gid=None):
     g = ctx["graphs"][ctx["main"] if gid is None else gid]
     out = []
